@@ -6,7 +6,10 @@ import (
 
 const FramePushPromise FrameType = 0x5
 
-var _ Frame = &PushPromise{}
+var (
+	_ Frame            = &PushPromise{}
+	_ FrameWithHeaders = &PushPromise{}
+)
 
 // PushPromise https://tools.ietf.org/html/rfc7540#section-6.6
 type PushPromise struct {
@@ -25,6 +28,36 @@ func (pp *PushPromise) Reset() {
 	pp.ended = false
 	pp.stream = 0
 	pp.header = pp.header[:0]
+}
+
+// Stream returns the promised stream id.
+func (pp *PushPromise) Stream() uint32 {
+	return pp.stream
+}
+
+// SetStream sets the promised stream id.
+func (pp *PushPromise) SetStream(stream uint32) {
+	pp.stream = stream
+}
+
+func (pp *PushPromise) EndHeaders() bool {
+	return pp.ended
+}
+
+func (pp *PushPromise) SetEndHeaders(value bool) {
+	pp.ended = value
+}
+
+func (pp *PushPromise) Padding() bool {
+	return pp.pad
+}
+
+func (pp *PushPromise) SetPadding(value bool) {
+	pp.pad = value
+}
+
+func (pp *PushPromise) Headers() []byte {
+	return pp.header
 }
 
 func (pp *PushPromise) SetHeader(h []byte) {
@@ -62,13 +95,19 @@ func (pp *PushPromise) Deserialize(fr *FrameHeader) error {
 }
 
 func (pp *PushPromise) Serialize(fr *FrameHeader) {
-	fr.payload = fr.payload[:0]
+	if pp.ended {
+		fr.SetFlags(
+			fr.Flags().Add(FlagEndHeaders))
+	}
 
-	// if pp.pad {
-	// 	fr.Flags().Add(FlagPadded)
-	// 	// TODO: Write padding flag
-	// }
-
+	// promised stream id (the reserved bit stays clear), then the fragment
+	fr.payload = append(fr.payload[:0], 0, 0, 0, 0)
+	http2utils.Uint32ToBytes(fr.payload[0:4], pp.stream&(1<<31-1))
 	fr.payload = append(fr.payload, pp.header...)
-	// TODO: write padding
+
+	if pp.pad {
+		fr.SetFlags(
+			fr.Flags().Add(FlagPadded))
+		fr.payload = http2utils.AddPadding(fr.payload)
+	}
 }
